@@ -125,6 +125,14 @@ def pick_attrs(rng, spec, key, join):
         return c
     if r < 0.72:
         return [rng.choice(cols)]           # exactly one attribute
+    if r < 0.80 and len(cols) >= 4:
+        # a run of adjacent columns, its first and last column in place, the inner ones permuted
+        k = rng.randint(4, len(cols))
+        s0 = rng.randint(0, len(cols) - k)
+        run = cols[s0:s0 + k]
+        inner = run[1:-1]
+        rng.shuffle(inner)
+        return [run[0]] + inner + [run[-1]]
     sel = [rng.choice(cols) for _ in range(rng.randint(1, 6))]
     return sel
 
